@@ -17,7 +17,9 @@ partial def closure (env : Environment) (todo : List Name) (seen : NameSet) : Na
     | none => closure env rest seen
     | some ci =>
       let fromType := rioConsts ci.type
-      let fromVal := match ci with
+      -- `Rio.Consts.*` is REGENERATED from /repo on every run: its text may change under a harmless rewrite of the source
+      -- (the equivalence proofs then decide), so a generated definition enters a pin by name and type only
+      let fromVal := if (`Rio.Consts).isPrefixOf n then [] else match ci with
         | .defnInfo d => rioConsts d.value
         | .opaqueInfo d => rioConsts d.value
         | .inductInfo i => i.ctors
@@ -28,7 +30,7 @@ def describe (env : Environment) (n : Name) : String :=
   match env.find? n with
   | none => s!"{n}:?"
   | some ci =>
-    let v := match ci with
+    let v := if (`Rio.Consts).isPrefixOf n then "<generated>" else match ci with
       | .defnInfo d => toString d.value
       | .opaqueInfo d => toString d.value
       | .inductInfo i => toString i.ctors
